@@ -170,122 +170,8 @@ def eval_case(c, bag, stats):
                 break
 
 
-# ------------------------------------------------------------------------------------------------
-# pair generators
-
-SUBS = [T2, ('list', [LEAF]), ('dictR', [LEAF, T2]), ('none',), ('e_tuple',), ('customE', [LEAF]), ('odictR', [LEAF, LEAF]),
-        ('dequeM', [LEAF]), ('nt', [LEAF, LEAF])]
-
-
-def suffixes(d, subs, rng, per_leaf=None):
-    """True suffixes of d: one leaf replaced by each sub, all leaves replaced by one sub, mixed."""
-    n = U.n_leaf_atoms(d)
-    yield d
-    for i in range(n):
-        for s in (subs if per_leaf is None else rng.sample(subs, per_leaf)):
-            yield U.substitute_leaves(d, [None] * i + [s])
-    if n >= 2:
-        for s in subs[:4]:
-            yield U.substitute_leaves(d, [s] * n)
-        yield U.substitute_leaves(d, [subs[(i * 2) % len(subs)] for i in range(n)])
-
-
-def equivalents(d):
-    """Same tree up to the equivalence of C07: other dict kind / key order / deque maxlen at every such node."""
-    swap = {'dictR': 'odictF', 'odictR': 'ddictF', 'ddictR': 'dictF', 'dictF': 'odictR', 'odictF': 'dictR', 'ddictF': 'odictR'}
-
-    def rec(x):
-        if len(x) == 1:
-            return x
-        ch = [rec(c) for c in x[1]]
-        if x[0] in swap:
-            return (swap[x[0]], ch[::-1])
-        if x[0] == 'deque':
-            return ('dequeM', ch)
-        if x[0] == 'dequeM':
-            return ('dequeM9', ch)
-        return (x[0], ch)
-    return rec(d)
-
-
-def nested_dict_pairs(nkeys, rng, limit):
-    """Two-level dict trees: every outer kind / key order x inner kind / key order x unequal subtree sizes."""
-    inner_p = [LEAF,
-               U.keyed('odict', 'pq', [LEAF, LEAF]), U.keyed('odict', 'qp', [LEAF, LEAF]), U.keyed('dict', 'pq', [LEAF, LEAF])]
-    inner_f = [LEAF, T2,
-               U.keyed('odict', 'pq', [LEAF, T2]), U.keyed('odict', 'qp', [T2, LEAF]), U.keyed('odict', 'qp', [LEAF, T3]),
-               U.keyed('dict', 'qp', [T2, LEAF]), U.keyed('ddict', 'qp', [LEAF, LEAF])]
-    keys = 'xyz'[:nkeys]
-    ps, fs = [], []
-    for kind in ('odict', 'dict'):
-        for perm in itertools.permutations(keys):
-            for vals in itertools.product(inner_p, repeat=nkeys):
-                if kind == 'dict' and perm != tuple(keys):
-                    continue
-                ps.append(U.keyed(kind, perm, list(vals)))
-    for kind in ('odict', 'ddict'):
-        for perm in itertools.permutations(keys):
-            for vals in itertools.product(inner_f, repeat=nkeys):
-                if kind == 'ddict' and perm != tuple(keys)[::-1]:
-                    continue
-                fs.append(U.keyed(kind, perm, list(vals)))
-    pairs = [(p, f) for p in ps for f in fs]
-    return U.thin(pairs, limit, rng)
-
-
-def random_nested(rng, depth):
-    """Random nested-dict prefix tree and a related full tree: keys permuted at every level, dict kinds changed,
-    leaves replaced by subtrees of different sizes; with probability 1/4 one extra mutation (near-miss)."""
-    kinds = ['odict', 'dict', 'ddict']
-
-    def gen(dep):
-        if dep == 0 or rng.random() < 0.3:
-            return LEAF
-        n = rng.choice([2, 2, 3])
-        keys = rng.sample(['k', 'l', 'm', 'n'], n)
-        return U.keyed(rng.choice(kinds[:2]), keys, [gen(dep - 1) for _ in range(n)])
-
-    def derive(x):
-        if len(x) == 1:
-            return rng.choice([LEAF, LEAF, T2, T3, ('list', [LEAF]), U.keyed('odict', 'ba', [LEAF, T2])])
-        kind, keys = x[0]
-        idx = list(range(len(keys)))
-        rng.shuffle(idx)
-        return U.keyed(rng.choice(kinds), [keys[i] for i in idx], [derive(x[1][i]) for i in idx])
-    p = gen(depth)
-    if len(p) == 1:
-        p = U.keyed('odict', 'lk', [LEAF, gen(depth - 1)])
-    f = derive(p)
-    if rng.random() < 0.25:
-        ms = list(U.mutants(f))
-        f = rng.choice(ms)
-    return p, f
-
-
-HET = [1, 'a', 2j, None, (0,), S.UK[0], S.UK[1], 2.5, b'x']
-
-
-def hetero_pairs(maxsize, rng, limit):
-    subsets = [c for r in range(1, maxsize + 1) for c in itertools.combinations(HET, r)]
-    out = []
-    for a in subsets:
-        for b in subsets:
-            for pk, fk in (('dict', 'dict'), ('odict', 'ddict')):
-                vals = [LEAF if i % 2 == 0 else T2 for i in range(len(b))]
-                out.append((U.keyed(pk, a, [LEAF] * len(a)), U.keyed(fk, b[::-1], vals[::-1])))
-    return U.thin(out, limit, rng)
-
-
-def equiv_sig(n):
-    """Signature up to the C07 equivalence (dict kind, key order, default factory, deque maxlen)."""
-    if n.kind in ('leaf', 'none'):
-        return n.kind
-    ch = [equiv_sig(c) for c in n.children]
-    if n.kind in U.DICT_KINDS:
-        return ('D', frozenset(zip(n.keys, ch)))
-    if n.kind == 'deque':
-        return ('deque', tuple(ch))
-    return (n.kind, n.typ, U._meta_sig(n.meta), tuple(ch))
+suffixes, equivalents, nested_dict_pairs, random_nested, hetero_pairs, equiv_sig, SUBS = \
+    U.suffixes, U.equivalents, U.nested_dict_pairs, U.random_nested, U.hetero_pairs, U.equiv_sig, U.SUBS
 
 
 def order_laws(descrs, o, bag):
